@@ -1,6 +1,7 @@
 import Rc.Model.PathSel
 import Rc.Model.Select
 import Rc.Drv.C10
+import Rc.Model.PathSelGlue
 namespace Rc.Drv.C11
 open Rc Rc.PathSel Rc.Select Rc.Drv.C10
 
@@ -23,19 +24,20 @@ def perms {α : Type} : List α → List (List α)
   | [] => [[]]
   | x :: xs => (perms xs).flatMap (insertAll x)
 
-def selLine (s : Strat) (rs : List Route) : String :=
-  if rs.any (fun r => (tryNew r).isSome) then "refused"
-  else
-    let c := ordOf s
+/-- a candidate: the route record `cmp` reads and - for a candidate given as a received UPDATE
+(u-token, see Rc/Drv/C10.lean) - the content `inner()` returns: the attribute map and the
+tie-breaker record.  The content of a candidate given as a route record is the record. -/
+abbrev Item := Route × Option (PaMap.Map × PathSelGlue.Tb)
+
+def selLine (s : Strat) (rs : List Item) : String :=
+    let c := fun (x y : Item) => ordOf s x.1 y.1
     let (pb, pk) := bestBackupPosition c id rs
-    let sb := (best (fun (x y : Route × Nat) => c x.1 y.1) rs.zipIdx).map (·.2)
-    let g := generic (fun (x y : Route × Nat) => c x.1 y.1) rs.zipIdx
+    let sb := (best (fun (x y : Item × Nat) => c x.1 y.1) rs.zipIdx).map (·.2)
+    let g := generic (fun (x y : Item × Nat) => c x.1 y.1) rs.zipIdx
     s!"pos={oi pb},{oi pk} val={oi pb},{oi pk} best={oi sb} gen={oi (g.best.map (·.2))},{oi (g.backup.map (·.2))}"
 
-def permLine (s : Strat) (rs : List Route) : String :=
-  if rs.any (fun r => (tryNew r).isSome) then "refused"
-  else
-    let c := ordOf s
+def permLine (s : Strat) (rs : List Item) : String :=
+    let c := fun (x y : Item) => ordOf s x.1 y.1
     let arr := rs.toArray
     let idxs := List.range rs.length
     let outs := (perms idxs).filterMap fun p =>
@@ -48,16 +50,37 @@ def permLine (s : Strat) (rs : List Route) : String :=
     if sorted.isEmpty then "none"
     else " ".intercalate (sorted.map fun (b, k) => s!"{b}/{if k == 0 then "-" else toString (k - 1)}")
 
+/-- the candidates of a `sel` / `selperm` line: all given as route records or all given as received
+UPDATEs (a line that mixes them is not a request).  `.inl reply`: some UPDATE was not accepted
+(`rej`), some route refused by `try_new` (`refused`), or a panic. -/
+def items (toks : List String) : Option (String ⊕ List Item) :=
+  match C10.allSome (toks.map parseCand) with
+  | none => none
+  | some cs =>
+    let isPdu := fun (c : C10.Cand) => match c with | .pdu .. => true | .abs _ => false
+    if cs.any isPdu && !cs.all isPdu then none
+    else
+      let bs := cs.map buildCand
+      let st := bs.map candStatus
+      if st.contains "panic" then some (.inl "panic")
+      else if st.contains "rej" then some (.inl "rej")
+      else if st.contains "refused" then some (.inl "refused")
+      else some (.inr (bs.filterMap fun b => match b with
+        | some ⟨.ok r, k⟩ => some (r, k)
+        | _ => none))
+
 def handle (ws : List String) : String :=
   match ws with
   | "sel" :: s :: rest =>
-    match C10.allSome (rest.map parseRoute), parseStrat s with
-    | some rs, some s => selLine s rs
+    match items rest, parseStrat s with
+    | some (.inl r), some _ => r
+    | some (.inr rs), some s => selLine s rs
     | _, _ => "bad-op"
   | "selperm" :: s :: rest =>
     if rest.length > 6 then "bad-op"
-    else match C10.allSome (rest.map parseRoute), parseStrat s with
-    | some rs, some s => permLine s rs
+    else match items rest, parseStrat s with
+    | some (.inl r), some _ => r
+    | some (.inr rs), some s => permLine s rs
     | _, _ => "bad-op"
   | "gen" :: rest =>
     match C10.allSome (rest.map fun x => natOf x.toList u32max) with
